@@ -741,6 +741,12 @@ static void process_downstream_ack(int userid, int down_seq, int down_frag)
 		   ack, happens a lot with ping packets */
 		return;
 
+	if (users[userid].outpacket.sentlen <= 0)
+		/* Nothing of this fragment has been sent yet, so this is an
+		   old ack that only looks right because the 3-bit sequence
+		   numbers have wrapped around */
+		return;
+
 	/* Received proper ack */
 	users[userid].outpacket.offset += users[userid].outpacket.sentlen;
 	users[userid].outpacket.sentlen = 0;
